@@ -27,21 +27,23 @@ RenameRows(p, rows) == [i \in Idx(rows) |-> [rows[i] EXCEPT !.c = Rho(p, rows[i]
 
 (* ---- the relation between the two inputs ---- *)
 Kept(rows, prm) == SelectSeq(rows, LAMBDA r : ~IsAbove(r, prm))
+(* the parameter record is only known for a run whose construction succeeded *)
+PrmSame(a, b) == a.events[1].res # "ok" \/ b.events[1].res # "ok" \/ a.prm = b.prm
 Premise(p) ==
   LET a == p.a  b == p.b IN
   CASE p.kind = "c07new" ->
-         /\ a.prm = b.prm /\ Len(a.raw) = Len(b.raw)
+         /\ PrmSame(a, b) /\ Len(a.raw) = Len(b.raw)
          /\ \A i \in Idx(a.raw) :
               IF IsAbove(a.raw[i], a.prm)
               THEN IsAbove(b.raw[i], b.prm) /\ b.raw[i].c = a.raw[i].c /\ b.raw[i].t = a.raw[i].t /\ b.raw[i].k = a.raw[i].k
               ELSE b.raw[i] = a.raw[i]
     [] p.kind = "c07blank" ->
-         /\ a.prm = b.prm /\ NAbove(b.raw, b.prm) = 0
-         /\ Kept(b.raw, b.prm) = Crop(a.raw, a.prm)
-    [] p.kind \in {"c10", "c12", "c13"} -> a.prm = b.prm /\ a.raw = b.raw
+         /\ PrmSame(a, b) /\ NAbove(b.raw, a.prm) = 0
+         /\ Kept(b.raw, a.prm) = Crop(a.raw, a.prm)
+    [] p.kind \in {"c10", "c12", "c13"} -> PrmSame(a, b) /\ a.raw = b.raw
     [] p.kind = "c16" ->
          /\ b.raw = RenameRows(p, a.raw)
-         /\ b.prm = [a.prm EXCEPT !.excl = [j \in Idx(a.prm.excl) |-> Rho(p, a.prm.excl[j])]]
+         /\ (a.events[1].res # "ok" \/ b.events[1].res # "ok" \/ b.prm = [a.prm EXCEPT !.excl = [j \in Idx(a.prm.excl) |-> Rho(p, a.prm.excl[j])]])
          /\ \A i, j \in Idx(p.rho) : i # j => p.rho[i][1] # p.rho[j][1] /\ p.rho[i][2] # p.rho[j][2]
 
 SameTables(ea, eb) == ea.tbl = eb.tbl /\ ea.hast = eb.hast /\ ea.nrep = eb.nrep
